@@ -969,6 +969,14 @@ func (c *nilCtx) validatedByCall(v ssa.Value, at ssa.Instruction) bool {
 		}
 		call, ok := stripConv(tv).(*ssa.Call)
 		if !ok {
+			// (x, err) := prepare(v): the error is the last result
+			if ex, isEx := stripConv(tv).(*ssa.Extract); isEx {
+				if c2, isC := ex.Tuple.(*ssa.Call); isC && c2.Common().StaticCallee() != nil && ex.Index == c2.Common().StaticCallee().Signature.Results().Len()-1 {
+					call, ok = c2, true
+				}
+			}
+		}
+		if !ok {
 			continue
 		}
 		f := call.Common().StaticCallee()
